@@ -14,13 +14,6 @@
 
 using namespace c08;
 
-// ---- input filter for confirmed root causes (campaigns continue behind them; counted in the statistics)
-static const char *known_trigger(const std::string &text, int mode)
-{
-	(void)text; (void)mode;
-	return 0;
-}
-
 extern "C" int LLVMFuzzerInitialize(int *argc, char ***argv)
 {
 	(void)argc; (void)argv;
@@ -38,6 +31,7 @@ extern "C" int LLVMFuzzerTestOneInput(const uint8_t *data, size_t size)
 	init_common();
 	periodic();
 	g_cnt["execs"]++;
+	struct Tot { double t0; Tot() : t0(now_ms()) {} ~Tot() { static double acc = 0; acc += now_ms() - t0; g_cnt["ms_total_in_target"] = (unsigned long long)acc; } } tot_;
 	if (names_special_file(data, size)) { g_cnt["skipped_special_file"]++; return 0; }
 	FuzzedDataProvider fdp(data, size);
 	unsigned sel = fdp.ConsumeIntegral<uint8_t>();
@@ -45,7 +39,10 @@ extern "C" int LLVMFuzzerTestOneInput(const uint8_t *data, size_t size)
 	std::string text = fdp.ConsumeRemainingBytesAsString();
 	int mode = sel % 8;
 	if (mode < 4) mode = 0;
-	if (const char *k = known_trigger(text, mode)) { g_cnt[std::string("skipped_known_") + k]++; return 0; }
+	if (mode < 6 && names_outside_path(text)) { g_cnt["skipped_outside_path"]++; return 0; }
+	if (const char *k = mode < 6 ? known_trigger(text) : 0) { g_cnt[std::string("skipped_known_") + k]++; return 0; }
+	uint8_t mb = (uint8_t)mode;
+	uint64_t h = fnv((const uint8_t *)text.data(), text.size(), fnv(&mb, 1));
 
 	FI *I = g_I;
 	if (!g_fresh) load_small(I, "at start of iteration");
@@ -63,6 +60,7 @@ extern "C" int LLVMFuzzerTestOneInput(const uint8_t *data, size_t size)
 	bool planted = !contains(text, "C08MARK");
 	if (planted) { I->AddError((std::string(MARK_E) + "\n").c_str()); I->AddWarning((std::string(MARK_W) + "\n").c_str()); }
 
+	double t0 = now_ms();
 	int rc = 0;
 	bool is_load = false;
 	const char *what = "";
@@ -95,6 +93,7 @@ extern "C" int LLVMFuzzerTestOneInput(const uint8_t *data, size_t size)
 		fwrite(text.data(), 1, text.size(), f);
 		fclose(f);
 		rc = guarded(what, [&] { return I->RunFile(p.c_str()); });
+		unlink(p.c_str());
 		break;
 	}
 	case 6:
@@ -107,23 +106,23 @@ extern "C" int LLVMFuzzerTestOneInput(const uint8_t *data, size_t size)
 		rc = guarded(what, [&] { return I->LoadDatabase(text.c_str()); });
 		break;
 	}
+	double t1 = now_ms();
 	CallInfo ci = check_after_call(I, what, rc, is_load, planted);
+	note_time(mode >= 6 ? "name" : ci.cls, t1 - t0);
 	g_cnt[std::string("mode_") + MODE[mode]]++;
 	g_cnt[ci.failed ? "calls_failed" : "calls_ok"]++;
 	if (mode >= 6) {
 		g_cnt[std::string("class_name_") + (ci.failed ? "fail" : "ok")]++;
 	} else {
-		uint8_t m = (uint8_t)mode;
-		uint64_t h = fnv((const uint8_t *)text.data(), text.size(), fnv(&m, 1));
 		note_case(ci, "", h, count_nonblank_lines(text.data(), text.size()));
 	}
 	files_off(I);
 	// clause (4)
 	if (ci.failed) {
-		reload_and_probe(I, what);
-		load_small(I, "after the probe");
+		reload_and_probe(I, what, h);     // leaves g_fresh = false: the next iteration starts with its own load
 	} else {
 		load_small(I, "after a successful call");
 	}
+	note_time("reload_probe", now_ms() - t1);
 	return 0;
 }
